@@ -5,15 +5,19 @@ package props
 import (
 	"context"
 	"fmt"
+	"slices"
 	"strings"
 	"testing"
 	"time"
 
 	am "github.com/pancsta/asyncmachine-go/pkg/machine"
+	arpc "github.com/pancsta/asyncmachine-go/pkg/rpc"
+	ssrpc "github.com/pancsta/asyncmachine-go/pkg/rpc/states"
 	ssam "github.com/pancsta/asyncmachine-go/pkg/states"
 	ampipe "github.com/pancsta/asyncmachine-go/pkg/states/pipes"
 
 	"verifsim/core"
+	"verifsim/simnet"
 )
 
 func init() { register(&Family{ID: "C18", Run: runC18}) }
@@ -49,6 +53,38 @@ func (p *pipeTarget) EvRemove(e *am.Event, states am.S, args am.A) am.Result {
 func (p *pipeTarget) Set(states am.S, args am.A) am.Result {
 	p.s.Yield("pipe.set", strings.Join(states, ","))
 	return p.Machine.Set(states, args)
+}
+
+// pipeTargetNet is the same for a network-machine target: the pipe handlers
+// fork one goroutine per event for targets that are not local.
+type pipeTargetNet struct {
+	*arpc.NetworkMachine
+	s *core.Sim
+}
+
+func (p *pipeTargetNet) EvAdd(e *am.Event, states am.S, args am.A) am.Result {
+	p.s.Yield("pipe.add", strings.Join(states, ","))
+	return p.NetworkMachine.EvAdd(e, states, args)
+}
+
+func (p *pipeTargetNet) EvAdd1(e *am.Event, state string, args am.A) am.Result {
+	p.s.Yield("pipe.add", state)
+	return p.NetworkMachine.EvAdd1(e, state, args)
+}
+
+func (p *pipeTargetNet) EvRemove1(e *am.Event, state string, args am.A) am.Result {
+	p.s.Yield("pipe.remove", state)
+	return p.NetworkMachine.EvRemove1(e, state, args)
+}
+
+func (p *pipeTargetNet) EvRemove(e *am.Event, states am.S, args am.A) am.Result {
+	p.s.Yield("pipe.remove", strings.Join(states, ","))
+	return p.NetworkMachine.EvRemove(e, states, args)
+}
+
+func (p *pipeTargetNet) Set(states am.S, args am.A) am.Result {
+	p.s.Yield("pipe.set", strings.Join(states, ","))
+	return p.NetworkMachine.Set(states, args)
 }
 
 func runC18(t *testing.T, rc *core.RunCtx) {
@@ -105,6 +141,13 @@ func runC18(t *testing.T, rc *core.RunCtx) {
 	if tp.Draw(3) == 0 {
 		busyOps = tp.Range(1, 4)
 	}
+	// the target may be a network machine: the mirror of a machine behind an
+	// rpc server, on a link that may stall while the source toggles
+	netTarget := tp.Draw(4) == 0 && kind != "BindErr"
+	stallLink := netTarget && tp.Draw(2) == 0
+	if netTarget {
+		busyOps = 0
+	}
 	nTasks := tp.Range(1, 2)
 	type op struct {
 		kind  int // 0 add 1 remove 2 toggle 3 adderr
@@ -123,14 +166,24 @@ func runC18(t *testing.T, rc *core.RunCtx) {
 		}
 		progs = append(progs, prog)
 	}
-	rc.Desc = fmt.Sprintf("pipe=%s multi=%v pairs=%v progs=%v busy=%d", kind, multi, pairs, progs, busyOps)
+	rc.Desc = fmt.Sprintf("pipe=%s multi=%v pairs=%v progs=%v busy=%d net=%v stall=%v", kind, multi, pairs, progs, busyOps, netTarget, stallLink)
 	core.Bubble(t, rc, func(s *core.Sim) {
 		ctx, stop := context.WithCancel(context.Background())
 		defer stop()
 		s.Horizon = 5 * time.Second
+		if netTarget {
+			// forwarded calls cross the link, possibly after it healed
+			s.Horizon = 30 * time.Second
+			s.MaxSim = 30 * time.Minute
+		}
 		s.TimeWeight = 30
 		s.HookFilter = func(pt, detail string) bool { return strings.HasPrefix(pt, "pipe.") }
-		src := am.New(ctx, srcSchema, &am.Opts{Id: "src", HandlerTimeout: 100000 * time.Hour})
+		srcTimeout := 100000 * time.Hour
+		if netTarget {
+			// a source handler that waits for the network shows as a timeout
+			srcTimeout = 2 * time.Second
+		}
+		src := am.New(ctx, srcSchema, &am.Opts{Id: "src", HandlerTimeout: srcTimeout})
 		if busyOps > 0 {
 			tgtSchema["Busy"] = am.State{Multi: true}
 		}
@@ -152,7 +205,46 @@ func runC18(t *testing.T, rc *core.RunCtx) {
 				}
 			})
 		}
-		px := &pipeTarget{Machine: tgt, s: s}
+		var px am.Api = &pipeTarget{Machine: tgt, s: s}
+		var nw *simnet.Net
+		if netTarget {
+			// the real target sits behind an rpc server, the pipes talk to its
+			// network machine
+			nw = simnet.New(s)
+			nw.Instant = true
+			core.UseNet(nw)
+			tsch := ssrpc.StateSourceSchema.Merge(tgtSchema)
+			var tnames am.S
+			for n := range tgtSchema {
+				tnames = append(tnames, n)
+			}
+			slices.Sort(tnames)
+			tgt = am.New(ctx, tsch, &am.Opts{Id: "tgt", HandlerTimeout: 100000 * time.Hour})
+			if err := tgt.VerifyStates(am.SAdd(ssrpc.StateSourceStates.Names(), tnames)); err != nil {
+				panic(err)
+			}
+			srv, err := arpc.NewServer(ctx, "localhost:7000", "srv", tgt, nil)
+			if err != nil {
+				panic(err)
+			}
+			cli, err := arpc.NewClient(ctx, "localhost:7000", "cli", tsch, nil)
+			if err != nil {
+				panic(err)
+			}
+			srv.Start(nil)
+			cli.Start(nil)
+			select {
+			case <-cli.Mach.When1(ssrpc.ClientStates.Ready, nil):
+			case <-time.After(time.Minute):
+				s.Fail("harness/rpc", "the rpc client never became ready: %s", cli.Mach.String())
+				return
+			}
+			px = &pipeTargetNet{NetworkMachine: cli.NetMach, s: s}
+			defer func() {
+				cli.Stop(ctx, nil, true)
+				srv.Stop(nil, true)
+			}()
+		}
 		var err error
 		switch kind {
 		case "Bind":
@@ -199,6 +291,13 @@ func runC18(t *testing.T, rc *core.RunCtx) {
 		for g, prog := range progs {
 			g, prog := g, prog
 			s.Go(fmt.Sprintf("g%d", g), func() {
+				if stallLink && g == 0 {
+					nw.StallAll(true)
+					defer func() {
+						// (the link heals once the source has stopped changing)
+						nw.StallAll(false)
+					}()
+				}
 				for _, o := range prog {
 					var r am.Result
 					switch o.kind {
@@ -221,27 +320,37 @@ func runC18(t *testing.T, rc *core.RunCtx) {
 		}
 		s.Run()
 		rc.NonTrivial = true
+		// (what a pipe into a network machine does to its source is reported per
+		// binder: the binders differ in whether they wait for the network)
+		netKind := ""
+		if netTarget {
+			netKind = "-net/" + kind
+		}
 		if s.Failed() || s.StepLimited {
 			return
 		}
 		if s.TimedOut {
-			s.Fail("C18/source-blocked", "source mutations still in flight: %v", s.InFlight)
+			s.Fail("C18/source-blocked"+netKind, "source mutations still in flight: %v", s.InFlight)
 			return
 		}
 		for _, r := range results {
 			if r.res == am.Canceled {
-				s.Fail("C18/source-canceled", "source mutation %v %s was canceled although neither machine has relations or vetoing handlers", r.op.kind, r.op.state)
+				s.Fail("C18/source-canceled"+netKind, "source mutation %v %s was canceled although neither machine has relations or vetoing handlers", r.op.kind, r.op.state)
 				return
 			}
 		}
 		if src.QueueLen() != 0 || tgt.QueueLen() != 0 {
-			s.Fail("C18/not-quiescent", "queues not empty at quiescence: src %d tgt %d", src.QueueLen(), tgt.QueueLen())
+			s.Fail("C18/not-quiescent"+netKind, "queues not empty at quiescence: src %d tgt %d", src.QueueLen(), tgt.QueueLen())
 			return
+		}
+		netSfx := ""
+		if netTarget {
+			netSfx = "-net"
 		}
 		switch kind {
 		case "BindErr":
 			if src.Is1(am.StateException) && !tgt.Is1("ErrPipe") {
-				s.Fail("C18/diverged/BindErr", "source has Exception active, the target's ErrPipe is not (src %s tgt %s)", src.String(), tgt.String())
+				s.Fail("C18/diverged"+netSfx+"/BindErr", "source has Exception active, the target's ErrPipe is not (src %s tgt %s)", src.String(), tgt.String())
 			}
 		case "BindAny":
 			// (states of the target's own, like Busy, are not the pipe's business)
@@ -252,7 +361,7 @@ func runC18(t *testing.T, rc *core.RunCtx) {
 				}
 			}
 			if !sameSet(src.ActiveStates(nil), piped) {
-				s.Fail("C18/diverged/BindAny", "active sets differ once the source stopped changing: src %s tgt %s", src.String(), tgt.String())
+				s.Fail("C18/diverged"+netSfx+"/BindAny", "active sets differ once the source stopped changing: src %s tgt %s", src.String(), tgt.String())
 			}
 		default:
 			for _, p := range pairs {
@@ -261,7 +370,7 @@ func runC18(t *testing.T, rc *core.RunCtx) {
 					if multi {
 						k += "-multi"
 					}
-					s.Fail("C18/diverged/"+k, "once the source stopped changing %s=%v but its piped target state %s=%v (src %s tgt %s)", p.src, src.Is1(p.src), p.tgt, tgt.Is1(p.tgt), src.String(), tgt.String())
+					s.Fail("C18/diverged"+netSfx+"/"+k, "once the source stopped changing %s=%v but its piped target state %s=%v (src %s tgt %s)", p.src, src.Is1(p.src), p.tgt, tgt.Is1(p.tgt), src.String(), tgt.String())
 					break
 				}
 			}
